@@ -26,12 +26,15 @@ pub mod semver {
     }
     impl PartialOrd for Version { #[verifier::external_body] fn partial_cmp(&self, o: &Version) -> (r: Option<core::cmp::Ordering>) { unimplemented!() } }
     pub struct SemverError { pub k: u8 }
+    impl core::fmt::Debug for SemverError { #[verifier::external_body] fn fmt(&self, f: &mut core::fmt::Formatter<'_>) -> core::fmt::Result { unimplemented!() } }
     pub type Error = SemverError;
     impl core::fmt::Display for SemverError { #[verifier::external_body] fn fmt(&self, f: &mut core::fmt::Formatter<'_>) -> core::fmt::Result { unimplemented!() } }
     impl core::str::FromStr for Version {
         type Err = SemverError;
         #[verifier::external_body]
-        fn from_str(s: &str) -> (r: Result<Version, SemverError>) { unimplemented!() }
+        fn from_str(s: &str) -> (r: Result<Version, SemverError>)
+            ensures r is Ok <==> ver_parse(s@) is Some, r is Ok ==> Some(r->Ok_0) == ver_parse(s@)
+        { unimplemented!() }
     }
 }
 
@@ -49,7 +52,10 @@ pub trait ExFromStr: Sized {
     type Err;
     fn from_str(s: &str) -> Result<Self, Self::Err>;
 }
-pub assume_specification<F: core::str::FromStr> [ str::parse::<F> ] (s: &str) -> (r: Result<F, F::Err>);
+pub assume_specification<F: core::str::FromStr> [ str::parse::<F> ] (s: &str) -> (r: Result<F, F::Err>)
+    ensures call_ensures(F::from_str, (s,), r);
+/// the version literal the repository compares against is a valid semver string
+pub broadcast axiom fn ax_parse_0_14() ensures #[trigger] semver::ver_parse("0.14.0"@) is Some;
 
 /// the version a contract was stored with before this migration (uninterpreted function of the cw2 item)
 pub uninterp spec fn cw2_stored_version(s: Raw) -> semver::Version;
